@@ -69,6 +69,16 @@ func (a *Aggregate) Aggregate(message string) error {
 	if err != nil {
 		panic(err)
 	}
+	if !isMerged {
+		// Another server's handler (or the result reporter) holds the global set
+		// right now. Wait for it rather than keeping the data back: there may be
+		// no later message from this server to merge it with, and the data would
+		// then be missing from the final result.
+		if err := a.globalGroup.Merge(a.query, a.group); err != nil {
+			panic(err)
+		}
+		isMerged = true
+	}
 	if isMerged {
 		// Re-init local group (make it empty again).
 		a.group.InitSet()
